@@ -204,7 +204,7 @@ fn be_strategy() -> impl Strategy<Value = Be> {
     prop_oneof![Just(Be::FftRef), Just(Be::FftAvx), Just(Be::NttRef), Just(Be::NttAvx)]
 }
 
-fn lut_strategy(exhaustive: bool) -> BoxedStrategy<LutCase> {
+pub fn lut_strategy(exhaustive: bool) -> BoxedStrategy<LutCase> {
     (be_strategy(), 3u8..=6, 0u8..=3, 2u8..=30, 1u8..=40, 0u8..3, 0u8..=6, Just(false), any::<bool>(), any::<u64>(), any::<i64>())
         .prop_map(move |(be, log_n, ext_log, b, k, extra_limbs, len_log, odd_len, right, fseed, rot)| {
             let mut c = LutCase { be, log_n, ext_log, b, k, extra_limbs, len_log, odd_len, right, fseed, rot, exhaustive };
